@@ -331,6 +331,8 @@ func corpusGE(cfg *config) []string {
 		"ix " + hexFloats(0, -1, 0, 1, -1, 0, 1, 0) + " " + hexFloats(0, 0) + " 1 1",
 		"ix " + hexFloats(0, -1, 0, -0.5, -1, 0, 1, 0) + " " + hexFloats(0, 0) + " 0 1",
 		"sd " + hexFloats(0, 180),
+		// recorded finding: a latitude of exactly 45 degrees (the geodesic dependency's sincosdx)
+		"rt " + hexFloats(10, 20, 45, 85, 7269223.2),
 		"sd " + hexFloats(-84.145064, -84.145064),
 	}
 }
